@@ -94,6 +94,7 @@ def steps():
     add("summarize(n,m)", lambda x, c: x >> pdt.summarize(n=pdt.count(), m=C.h.max()), effect="destroy", needs=("h",))
     add("summarize(sa)", lambda x, c: x >> pdt.summarize(sa=C.a.sum(), ca=C.a.count()), effect="destroy", needs=("a",))
     add("left_join(u)", lambda x, c: x >> pdt.left_join(c.u, x.a == c.u.a), effect="destroy", needs=("a",), breaks=True)
+    add("left_join(u,eq&<)", lambda x, c: x >> pdt.left_join(c.u, (x.a == c.u.a) & (x.h + 4 < c.u.h)), effect="destroy", needs=("a", "h"), breaks=True)
     add("inner_join(u,<)", lambda x, c: x >> pdt.inner_join(c.u, (x.a < c.u.a) & (x.h < c.u.h)), effect="destroy", needs=("a", "h"), breaks=True)
     def _un(x, c, r):
         names = [col.name for col in x]
@@ -150,7 +151,7 @@ def expr_steps():
     add("summarize(expr of aggs)", lambda x, c: x >> pdt.summarize(w=x.a.sum() + x.h.max() * 2, v=pdt.when(x.a.max() > 3).then(x.h.min()).otherwise(-1)), effect="destroy", needs=("a", "h"))
     add("case/coalesce", lambda x, c: x >> pdt.mutate(w=pdt.when(x.a > 2).then(x.h).when(x.f).then(x.a).otherwise(None), v=pdt.coalesce(x.a, x.h), u=x.a.fill_null(0) + x.h, m=x.a.map({1: 10, 2: 20}, default=x.h)), needs=("a", "f", "h"))
     add("arith", lambda x, c: x >> pdt.mutate(w=x.a * x.h - 3, v=x.h // 4, u=x.h % 4, p=(-x.h) // 4, q=(-x.h) % 4, r=x.b / 2 + x.a, ab=(x.a - 3).abs(), fl=(x.b / 4).floor(), ce=(x.b / 4).ceil()), needs=("a", "b", "h"))
-    add("compare/bool", lambda x, c: x >> pdt.mutate(w=(x.a > 2) & x.f, v=(x.a <= 2) | x.f, u=~x.f, e=x.a == x.h, ne=x.a != x.h, i=x.a.is_in(1, 2, 5), n=x.a.is_null(), nn=x.s.is_not_null(), x_=x.f ^ (x.a > 1)), needs=("a", "f", "h", "s"))
+    add("compare/bool", lambda x, c: x >> pdt.mutate(w=(x.a > 2) & x.f, v=(x.a <= 2) | x.f, u=~x.f, e=x.a == x.h, ne=x.a != x.h, i=x.a.is_in(1, 2, 5), i2=x.h.is_in(x.a, 7), i3=x.a.is_in(1, None), n=x.a.is_null(), nn=x.s.is_not_null(), x_=x.f ^ (x.a > 1)), needs=("a", "f", "h", "s"))
     add("string", lambda x, c: x >> pdt.mutate(w=x.s + "z", v=x.s.str.len(), u=x.s.str.upper(), st=x.s.str.starts_with("k"), ct=x.s.str.contains("1"), sl=x.s.str.slice(1, 2), rp=x.s.str.replace_all("k", "qq")), needs=("s",))
     add("cast", lambda x, c: x >> pdt.mutate(w=x.a.cast(pdt.Float64()), v=x.h.cast(pdt.String()), u=x.f.cast(pdt.Int64()), b_=x.b.cast(pdt.Int64())), needs=("a", "b", "f", "h"))
     add("min/max horizontal", lambda x, c: x >> pdt.mutate(w=pdt.max(x.a, x.h), v=pdt.min(x.a, x.h, 3)), needs=("a", "h"))
